@@ -157,7 +157,7 @@ CORPUS = [
     ([{"types": ["A", "B"], "kleene": [1]}], list("ABB")),                   # GRETA 4 (1 + 3), Hamlet 5, three trends
     ([{"types": ["A", "B"], "kleene": [1]}, {"types": ["C", "B"], "kleene": [1]}], list("ABB")),   # sharing changes q0 (5 -> 3) and gives q1 a trend
     ([{"types": ["A", "B", "C"], "kleene": [1]}], list("ABC")),              # incremental report 2, one trend
-    ([{"types": ["A", "B"], "kleene": [1]}, {"types": ["B", "A"], "kleene": [1]}], list("ABA")),   # GRETA: edges of one query feed the other
+    ([{"types": ["A", "B"], "kleene": [1]}, {"types": ["B", "A"], "kleene": [1]}], list("ABAB")),  # GRETA: edges of one query feed the other (C25_greta_sharing_refuted)
     ([{"types": ["A", "B"], "kleene": [1]}], list("BAZ")),                   # no trend, nothing reported
     ([{"types": ["C", "B"], "kleene": [1]}, {"types": ["A", "C"], "kleene": [1]}], list("CBBAB")),   # A splits the B burst only next to the second query
 ]
@@ -281,6 +281,12 @@ def check(run):
                 report("engine-sharing", "Engine: stream Q%d reports %s alone and %s next to the other streams" % (i, eng_al, eng_sh), qs, es, i,
                        ["engine-shared-aggregator-silent"] if cls_engine_silent(qs, i, es) else [], {"shared": e.get("steps"), "alone": ea.get("steps")})
     run.extra["oracle_failures"] = {"%s %s" % (k[0], list(k[1])): v for k, v in seen.items()}
+    # every listed finding class must have been re-confirmed against the implementation in this run (the corpus holds a witness of each)
+    hit = {c for k in seen for c in k[1]}
+    for f in run.known:
+        if f["class"] not in hit:
+            run.tie_broken("known finding %s not re-confirmed" % f["class"],
+                           "no failing input of this class was observed; the Coq witnesses (C25_*_refuted) or known_findings.json are out of date")
     # ---- correspondence
     try:
         model = coqtools.coq_eval("C25", IMPORTS, exprs, shard=max(10, len(exprs) // 16 + 1))
